@@ -261,6 +261,9 @@ func runC15(r *run) {
 			msg := strings.NewReplacer("<", "(", "&", "+").Replace(g.encMessage(true, false))
 			attrs := g.genSAttrs(g.intn(6), 3)
 			ts := g.encTime()
+			if call == 3 {
+				ts = time.Time{} // a record whose own time is the zero time: that is its time
+			}
 			tsText := ts.UTC().Format(encLayout)
 			enabled := h.Enabled(ctx, logslog.Level(sl))
 			if via {
